@@ -261,6 +261,16 @@ func (w *world) submit(kind, arg string) error {
 			}
 			fin(statusOf(err), acc)
 		}()
+	case "ESEARCH":
+		cmd := w.cl.UIDSearch(&imap.SearchCriteria{}, &imap.SearchOptions{ReturnCount: true})
+		go func() {
+			d, err := cmd.Wait()
+			acc := accT{}
+			if d != nil && d.Count != 0 {
+				acc.Items = append(acc.Items, item{"esearch", float64(d.Count), "none"})
+			}
+			fin(statusOf(err), acc)
+		}()
 	case "FETCH":
 		var set imap.SeqSet
 		set.AddRange(1, 0)
@@ -329,6 +339,11 @@ func (w *world) step(ev *event) error {
 		w.write(fmt.Sprintf("* %d EXPUNGE", ev.N1))
 	case "Search":
 		w.write(fmt.Sprintf("* SEARCH %d", ev.N1))
+	case "Esearch":
+		if ev.N2 < 1 || ev.N2 > len(w.tags) {
+			return fmt.Errorf("harness: no command %d", ev.N2)
+		}
+		w.write(fmt.Sprintf("* ESEARCH (TAG %q) UID COUNT %d", w.tags[ev.N2-1], ev.N1))
 	case "Flags":
 		w.write("* FLAGS " + flagText(ev.S1))
 	case "PermFlags":
